@@ -966,7 +966,10 @@ class Interpreter:
                 for node in ast.walk(statement):
                     if isinstance(node, ast.Name):
                         used.add(node.id)
-        return {varname: assignments[varname] for varname in defined - used}
+        # keep program order (dict insertion order); iterating the set difference made the order
+        # of the findings, and the one kept in detailed_results, depend on the hash seed
+        unused = defined - used
+        return {varname: stmt for varname, stmt in assignments.items() if varname in unused}
 
     def unused_variables(self) -> FrozenSet[str]:
         return self.unused_assignments().keys()  # type: ignore
